@@ -324,7 +324,23 @@ func succeedsBefore(call, after *ssa.Call) bool {
 			e = ex
 		}
 	}
-	for _, ref := range core.Referrers(e) {
+	// the error may travel through one shared variable (err = f(); if err == nil { err = g() } … if err != nil { fail }):
+	// tests of a phi that has e as one of its inputs count as tests of e
+	cands := []ssa.Value{e}
+	seenPhi := map[ssa.Value]bool{}
+	for i := 0; i < len(cands) && i < 16; i++ {
+		for _, ref := range core.Referrers(cands[i]) {
+			if ph, ok := ref.(*ssa.Phi); ok && !seenPhi[ph] {
+				seenPhi[ph] = true
+				cands = append(cands, ph)
+			}
+		}
+	}
+	var refs []ssa.Instruction
+	for _, cv := range cands {
+		refs = append(refs, core.Referrers(cv)...)
+	}
+	for _, ref := range refs {
 		bo, ok := ref.(*ssa.BinOp)
 		if !ok || !(bo.Op == token.NEQ || bo.Op == token.EQL) {
 			continue
